@@ -35,6 +35,7 @@ type Oblig struct {
 	RefHints []*Term // ground reference terms (values of pointer locals) offered likewise
 	Script     string // rendered SMT-LIB query (renderOblig)
 	CandScript string // query with the quantified facts dropped (candidate counterexamples)
+	SlimScript string // query with only the quantified facts that mention a heap location of the goal (sound: fewer hypotheses)
 	Trivial    bool   // discharged by the simplifier
 }
 
@@ -1088,6 +1089,12 @@ func (fr *Frame) execIndexAddr(x *ssa.IndexAddr, st *State) Val {
 		return Val{K: KAddr, T: x.Type(), A: &Addr{Kind: AElem, Arr: base.F[0].S, Idx: Add(base.F[1].S, idx), Key: elemKey(bt.Elem()), T: bt.Elem()}}
 	case *types.Pointer:
 		at := bt.Elem().Underlying().(*types.Array)
+		if base.K == KAddr {
+			// &obj.field[i] with an array-typed field: the field holds the id of its row in the element heap
+			id := st.load(base.A)
+			fr.panicCheck("panic.index", x, st, And(Ge(idx, IntLit(0)), Lt(idx, IntLit(at.Len()))), "array index out of range")
+			return Val{K: KAddr, T: x.Type(), A: &Addr{Kind: AElem, Arr: id.S, Idx: idx, Key: elemKey(at.Elem()), T: at.Elem()}}
+		}
 		fr.panicCheck("panic.nil", x, st, Neq(base.S, IntLit(0)), "nil array pointer")
 		fr.panicCheck("panic.index", x, st, And(Ge(idx, IntLit(0)), Lt(idx, IntLit(at.Len()))), "array index out of range")
 		return Val{K: KAddr, T: x.Type(), A: &Addr{Kind: AElem, Arr: base.S, Idx: idx, Key: elemKey(at.Elem()), T: at.Elem()}}
